@@ -277,6 +277,9 @@ def _corner_score(rc: RuleCtx):
         val = out.value()
     except Unsupported as e:
         raise AnalysisError(f"{fi.qualname}: not modelled: {e}")
+    from .common import stray_stores
+    if stray_stores(out):
+        raise AnalysisError(f"{fi.qualname}: the score array is filled by stores the evaluation does not turn into values ({stray_stores(out)}) - shape not recognised")
     j = sym("j")
     anf.declare_integer(j)
     if isinstance(val, PW):
